@@ -90,6 +90,7 @@ func init() {
 			Rule{Name: "E15.flag", Run: runSearchFlagReset}, Rule{Name: "E15.ctx", Run: runCtxLeak}, Rule{Name: "E15.record", Run: runRecordThenReject}, Rule{Name: "E16.premature", Run: runPrematureUse}, Rule{Name: "E15.convdir", Run: runConversionDirection}, Rule{Name: "E15.convsrc", Run: runConversionSourceSiblings}, Rule{Name: "E15.resumed", Run: runResumedSearch}, Rule{Name: "E15.singlepass", Run: runSinglePassLoop}, Rule{Name: "E11.pathid", Run: runPathIdentity}, Rule{Name: "E11.lookupblock", Run: runLookupBlockComplete}, Rule{Name: "E15.accum", Run: runCarriedAccumulator}, Rule{Name: "E15.sizedmake", Run: runAppendAfterSizedMake}, Rule{Name: "E15.dedup", Run: runPartialKeyDedup}, Rule{Name: "E16.flags", Run: runFlagOverwrite}, Rule{Name: "E14.results", Run: runResultPosition}, Rule{Name: "E15.double", Run: runDoubleAccumulation}, Rule{Name: "E15.searchmiss", Run: runSearchForwardsMiss})
 	}
 	propRules["C18"] = append(propRules["C18"], Rule{Name: "E2.poskeys", Run: runPosKeys}, Rule{Name: "E15.collect", Run: runCollectAll}, Rule{Name: "E6.more", Run: runE6MoreWithDecoded}, Rule{Name: "E6.trim", Run: runByteTrim}, Rule{Name: "E6.column", Run: runColumnOrder}, Rule{Name: "E8.completion", Run: runCompletionContainment})
+	propRules["C03"] = append(propRules["C03"], Rule{Name: "E2.memo", Run: runDerivedKeyCache})
 	propRules["C19"] = append(propRules["C19"], Rule{Name: "E11.consumers", Run: runLookupConsumers})
 	propRules["C19"] = append(propRules["C19"], Rule{Name: "E13.evalctx", Run: runEvalContextAgreement})
 	for _, pid := range []string{"C03", "C04", "C05", "C13"} {
